@@ -1,6 +1,7 @@
 SPECIFICATION Spec
 CONSTANTS
   Unchecked = {}
+  FullStar = FALSE
   MutEach = FALSE
   NoBodyAfterError = FALSE
   Roles = {"leader"}
